@@ -29,7 +29,7 @@ CONSTANTS Users,        \* accounts that can sign (exist at genesis)
                         \* block meter): used ONLY to classify an already rejected trace as that known defect, never to accept
 
 Names == Users \cup Others
-Kinds == {"send", "set", "inc", "setpanic", "setpay", "burn", "burnn"}
+Kinds == {"send", "set", "inc", "setpanic", "setpay", "burn", "burnn", "redeploy"}
 
 VARIABLES bal, seq, rv,          \* deliver state (block-level overlay): balances, sequences, realm variables
           blockGas, maxGas,
@@ -124,6 +124,9 @@ Msg ==
                          /\ UNCHANGED lrv
                       [] m.kind = "set" ->
                          /\ lrv' = [lrv EXCEPT ![m.var] = m.val]
+                         /\ lbal' = [[lbal EXCEPT ![s] = @ - m.dep] EXCEPT !["dep"] = @ + m.dep]
+                      [] m.kind = "redeploy" ->    \* re-deployment of the private realm: its code version is state like any other
+                         /\ lrv' = [lrv EXCEPT !["pv"] = m.val]
                          /\ lbal' = [[lbal EXCEPT ![s] = @ - m.dep] EXCEPT !["dep"] = @ + m.dep]
                       [] m.kind = "inc" ->
                          /\ lrv' = [lrv EXCEPT ![m.var] = @ + 1]
